@@ -170,7 +170,8 @@ def instrument(unit, scratch, gb, cover=False):
     out = os.path.join(scratch, 'cov2.gb' if cover else 'u2.gb')
     cmd = ['goto-instrument', '--dfcc', unit['harness']]
     for f in ([unit['enforce']] if isinstance(unit.get('enforce'), str) else unit.get('enforce', [])):
-        cmd += ['--enforce-contract', f]
+        # recursive functions: CBMC's --enforce-contract-rec lets the recursive call be replaced by the contract
+        cmd += ['--enforce-contract-rec' if unit.get('enforce_rec') else '--enforce-contract', f]
     repl = list(unit.get('replace', []))
     # name-rendering helpers reached through logging arguments: always by contract when present
     rc0, symtxt, _ = run(['goto-instrument', '--show-symbol-table', gb], scratch, 120)
